@@ -5,6 +5,7 @@ package main
 // that knowledge never comes from the code under test.
 
 import (
+	"strings"
 	"crypto"
 	"crypto/x509"
 	"crypto/x509/pkix"
@@ -240,6 +241,28 @@ func (w *verifCredWorld) certShapes() []verifCred {
 		w.AutoUser, true, false, ext, "10.21.0.0:4000", hourAgo, tomorrow)
 	add("cert-ip-outside-boundary", verifCred{Why: "IP certificate presented from outside its netblocks", User: w.AutoUser, IPCert: true, Outside: true},
 		w.AutoUser, true, false, ext, "192.168.7.127:4000", hourAgo, tomorrow)
+	// the restriction is about the TCP peer: proxy-style headers naming an inside address change nothing, from loopback
+	// (where the daemon's logging helper believes them) or from anywhere else
+	for _, peer := range []string{"127.0.0.1:4000", "10.21.0.0:4000"} {
+		n0 := len(out)
+		add("cert-ip-outside-proxy-headers-claim-inside@"+strings.Split(peer, ":")[0], verifCred{Why: "IP certificate presented from outside its netblocks (proxy headers name an inside address)", User: w.AutoUser, IPCert: true, Outside: true},
+			w.AutoUser, true, false, ext, peer, hourAgo, tomorrow)
+		if len(out) > n0 {
+			inner := out[n0].Apply
+			out[n0].Apply = func(q *verifReq) {
+				inner(q)
+				h := map[string]string{}
+				for k, v := range q.Header {
+					h[k] = v
+				}
+				for _, k := range []string{"X-Forwarded-For", "X-Real-Ip", "Forwarded-For", "True-Client-Ip"} {
+					h[k] = "10.20.1.1"
+				}
+				h["Forwarded"] = "for=10.20.1.1"
+				q.Header = h
+			}
+		}
+	}
 	add("cert-ip-nonautomation-user", verifCred{Why: "IP certificate for a name that is not an automation user", User: w.User, IPCert: true},
 		"notautomation", true, false, ext, "10.20.1.1:4000", hourAgo, tomorrow)
 	return out
